@@ -207,7 +207,7 @@ def case_report_order(ctx, spec):
 
 
 # ---- ill-formed classes ---------------------------------------------------------------------------
-ILL = ["trade_nan_price", "transact_nan_price", "trade_zero_price", "nan_price_open_position", "nan_coupon_open_position", "duplicate_columns", "zero_base_mv", "zero_base_fi", "fi_under_mv", "custom_price_no_bidoffer", "misaligned_rate_table", "custom_price_nan"]
+ILL = ["trade_nan_price", "transact_nan_price", "trade_zero_price", "nan_price_open_position", "nan_coupon_open_position", "duplicate_columns", "zero_base_mv", "zero_base_fi", "fi_under_mv", "custom_price_no_bidoffer", "misaligned_rate_table", "custom_price_nan", "zero_base_fi_after_notional", "trade_nan_bidoffer"]
 
 
 @st.composite
@@ -340,6 +340,33 @@ def _case_illformed(ctx, spec):
         labs.append("zero_marks_before_the_gap")
     if klass == "trade_zero_price":
         pr[bad][k] = 0.0
+    if klass == "zero_base_fi_after_notional":
+        # a fixed-income book that carried notional, wound it down to exactly zero while a hedge (zero notional by definition) stays open:
+        # from the second date without notional on, the hedge's P&L has no base to be a return on - whatever base was there before
+        h = [round(50.0 * (1.0 + 0.01 * ((-1) ** i) * (i + 1)), 4) for i in range(len(ds))]
+        data = interp.mk_frame(ds, dict(pr, hedge_=h))
+        idx = data.index
+        hk = bt.core.CouponPayingHedgeSecurity if spec.get("custom_flat") else bt.core.HedgeSecurity
+        root = bt.core.FixedIncomeStrategy("root", children=[bt.core.FixedIncomeSecurity(t) for t in sorted(pr)] + [hk("hedge_")])
+        kw = {"coupons": interp.mk_frame(ds, {"hedge_": [0.0] * len(ds)})} if spec.get("custom_flat") else {}
+        root.setup(data, **kw)
+        root.use_integer_positions(False)
+        root.update(idx[0])
+        q = 100.0 * spec["mult"]
+        root.transact(q if spec["custom_q"] > 0 else -q, child=bad)
+        root.transact(spec["custom_q"] * 10.0, child="hedge_")
+        root.update(idx[0])
+        j = min(max(k, 1), len(idx) - 2)  # the date on which the notional is wound down
+        for d in idx[1 : j + 1]:
+            root.update(d)
+        root.value
+        root.transact(-root.children[bad].position, child=bad)
+        root.update(idx[j])
+        if abs(root.notional_value) > 0:
+            raise Discard("notional not wound down")
+        must_raise(lambda: (root.update(idx[j + 1]), root.value, root.price), "P&L of a hedge on %s in a fixed-income strategy whose notional has been zero since %s (it carried %r before)" % (idx[j + 1], idx[j], q))
+        labs.append("wound_down_on_date_%d" % min(j, 3))
+        return {"nontrivial": True, "labels": labs}
     data = interp.mk_frame(ds, pr)
     idx = data.index
     if klass in ("zero_base_fi", "nan_coupon_open_position"):
@@ -363,6 +390,10 @@ def _case_illformed(ctx, spec):
         kw = {}
         if (spec["spread"] is not None and klass != "custom_price_no_bidoffer") or klass == "custom_price_nan":
             kw["bidoffer"] = data * (spec["spread"] if spec["spread"] is not None else 0.0)
+        if klass == "trade_nan_bidoffer":
+            # the spread of one security is missing on one date: a trade in it that date has no price to be booked at
+            kw["bidoffer"] = data * (spec["spread"] if spec["spread"] is not None else 0.002)
+            kw["bidoffer"].loc[idx[k], bad] = np.nan
         root.setup(data, **kw)
     root.use_integer_positions(bool(spec["integer_positions"]))
     fee = interp.Fee(spec["fee"])
@@ -383,6 +414,31 @@ def _case_illformed(ctx, spec):
         must_raise(lambda: strat.allocate(amt, child=bad), "allocating %r to %s at price %r" % (amt, bad, pr[bad][k]), unchanged_root=root)
         must_raise(lambda: strat.rebalance(0.3, bad), "rebalancing %s to 0.3 at price %r" % (bad, pr[bad][k]), unchanged_root=root)
         return {"nontrivial": True, "labels": labs}
+    if klass == "trade_nan_bidoffer":
+        for d in idx[1 : k + 1]:
+            root.update(d)
+
+        def go_transact():
+            strat.transact(abs(amt) / 100.0 + 1.0, child=bad)
+            root.update(idx[k])
+            root.value
+
+        if spec.get("custom_flat"):
+            must_raise(go_transact, "transacting %s on a date its bid/offer spread is missing" % bad)
+        else:
+            # an amount too small to buy a single unit trades nothing: then there is nothing to refuse
+            before = _state(bt, root)
+            try:
+                strat.allocate(amt, child=bad)
+                root.update(idx[k])
+            except Exception:
+                if {kk: v for kk, v in _state(bt, root).items() if before.get(kk, (0.0,)) != v}:
+                    raise Violation("allocating to %s with a missing spread was refused but changed the state" % bad, signature="ill:%s:partial-write" % klass)
+            else:
+                if {kk: v for kk, v in _state(bt, root).items() if before.get(kk, (0.0,)) != v}:
+                    raise Violation("allocating %r to %s on a date its bid/offer spread is missing traded without an error" % (amt, bad), signature="ill:%s:no-error" % klass)
+                labs.append("nothing_to_trade")
+        return {"nontrivial": True, "labels": labs + (["via_transact"] if spec.get("custom_flat") else ["via_allocate"])}
     if klass == "transact_nan_price":
         # a quantity transacted (not allocated) in a security without a price that day: the error may come from transact itself or from the
         # refresh that follows, but the date must not close with a NaN booked
